@@ -46,4 +46,12 @@ Definition checker (src : text) : option (list (text * bool)) :=
   | Parser.Ok p => Some (map (fun nb : text * list stmt => let '(n, b) := nb in (n, check_script b)) (scripts_of p))
   | _ => None
   end.
+
+(* the model's parse of a source (what the author wrote: names, labels, scopes, inline texts), for the direct oracles *)
+Definition parse_model (env_errors : bool) (cli_font : text) (cli_maxlen : Z) (src : text) : option program :=
+  let ts := lex is_letter_hi is_digit_hi is_space_hi src in
+  match parse_program autovars switches env_errors (parse_format fc cli_font cli_maxlen env_errors) ts with
+  | Parser.Ok p => Some p
+  | _ => None
+  end.
 End O.
